@@ -119,14 +119,21 @@ Shr0(a, b) == ShrN(a, Count(b), FALSE)
 ShrA(a, b) == ShrN(a, Count(b), Msb(a))
 
 ----------------------------------------------------------------------------
+RECURSIVE TupOf(_, _)
+\* a function constructor [i \in S |-> e] is a LAZY value in TLC (evaluated at every application, never cached); chains
+\* of bit-vector operations nest such closures and a loop over them costs 2^depth.  Append is strict: TupOf rebuilds the
+\* limb sequence as a tuple of evaluated integers.
+TupOf(f, n) == IF n = 0 THEN <<>> ELSE Append(TupOf(f, n - 1), f[n])
+Strict(a) == Mk(a.w, TupOf(a.l, NL(a.w)))
+
 \* unsigned division (restoring, bit by bit); x / 0 = all ones, x mod 0 = x   (RzIL convention)
 \* One step of restoring division on *values* (no laziness): s = [q, r] so far, bit k of a is next.
 DivStepRec(a, d, k, s) ==
     LET r1 == LET sh == ShlN(s.r, 1) IN IF Bit(a, k) = 1 THEN OrBV(sh, One(a.w)) ELSE sh
         \* r < d <= 2^w - 1, so r1 = 2r+bit may overflow w bits only if Msb(r); then r1 >= d anyway
         ge == Msb(s.r) \/ ~Ult(r1, d)
-    IN  [q |-> IF ge THEN OrBV(ShlN(s.q, 1), One(a.w)) ELSE ShlN(s.q, 1),
-         r |-> IF ge THEN Sub(r1, d) ELSE r1]
+    IN  [q |-> Strict(IF ge THEN OrBV(ShlN(s.q, 1), One(a.w)) ELSE ShlN(s.q, 1)),
+         r |-> Strict(IF ge THEN Sub(r1, d) ELSE r1)]
 
 RECURSIVE DivLoop(_, _, _, _)
 \* TLC passes operator arguments as unevaluated thunks; in a recursion whose accumulator is used more
